@@ -305,4 +305,4 @@ def run(run, tier, loadcfg):
         check_sqrt(run, cx, cfg)
         check_precision(run, cx, cfg)
         from rules import C06
-        C06.check_used(run, cx, cfg, [b for b in fx_.bodies.values() if b['crate'] == 'dasp_rms'], 3)
+        C06.check_used(run, cx, cfg, [b for b in fx_.bodies.values() if b['crate'] == 'dasp_rms'], 3, handed=C06.F)
